@@ -55,11 +55,27 @@ def inl(crate, body, thread=True, **kw):
         if db is None:
             break
         ib = inline(crate, db, pk)
+    unrolled = False
+    try:
+        from ..unroll import unroll_array_loops
+        ub = unroll_array_loops(crate, ib)
+        if ub is not None:
+            ib = ub
+            unrolled = True
+    except Exception:
+        pass
     if thread:
         from ..thread import thread_jumps
         try:
             ib = thread_jumps(ib, fold_eq=(thread != 'noeq'))
         except RecursionError:
+            pass
+    if unrolled:
+        # `if i == 0` on the index of an unrolled loop
+        try:
+            from ..unroll import prune_const_switches
+            ib = prune_const_switches(ib)
+        except Exception:
             pass
     return ib
 
